@@ -41,14 +41,20 @@ func (t *mixedTable) insert(k, v Value) {
 	if ok && t.array.setValue(i, v) {
 		return
 	}
+	if ok {
+		k = IntValue(i)
+	}
 	if t.hashTable.full() {
+		// Assigning to a key which already has a slot needs no room: do not
+		// grow (rehashing would break a traversal in progress, during which
+		// existing fields may be assigned).
+		if t.hashTable.setExisting(k, v) {
+			return
+		}
 		t.grow()
 		if ok && t.array.setValue(i, v) {
 			return
 		}
-	}
-	if ok {
-		k = IntValue(i)
 	}
 	t.hashTable.set(k, v)
 }
@@ -276,6 +282,20 @@ func (t *hashTable) set(k, v Value) {
 	if setKeyValue(t.slots, (1<<t.base)-1, k, v, t.nextFree) {
 		t.nextFree = updateNextFree(t.slots, t.nextFree)
 	}
+}
+
+// setExisting sets k => v if k already has a slot in the table (returning true
+// in that case).
+func (t *hashTable) setExisting(k, v Value) bool {
+	if t == nil {
+		return false
+	}
+	it, _ := findSlot(t.slots, (1<<t.base)-1, k)
+	if it == nil {
+		return false
+	}
+	it.value = v
+	return true
 }
 
 func (t *hashTable) reset(k, v Value) bool {
